@@ -331,7 +331,7 @@ def proof_status(prop):
         if b.startswith("Closed"):
             assum[n] = []
         else:
-            axs = re.findall(r"^([\w.]+)\s*:", b, re.M)
+            axs = [a for a in re.findall(r"^([\w.]+)\s*:", b, re.M) if a != "Axioms"]
             assum[n] = axs
     for n in names:
         res["theorems"].append({"name": n, "checked": rc == 0 and not broken_deps, "assumptions": assum.get(n)})
